@@ -1,5 +1,10 @@
 use std::collections::HashMap;
+#[cfg(not(feature = "verif-sim"))]
 use std::fs::{self, DirEntry, File};
+#[cfg(feature = "verif-sim")]
+use std::fs::{self, DirEntry};
+#[cfg(feature = "verif-sim")]
+use crate::common::simio::File;
 use std::io::{self, Read, Seek, SeekFrom};
 use std::path::{Path, PathBuf};
 
